@@ -26,27 +26,28 @@ L == CASE Lattice = "L3" -> {<<0, 0>>, <<12, 12>>, <<24, 0>>}
        [] Lattice = "L9" -> {<<x, y>> : x \in {0, 12, 24}, y \in {0, 12, 24}}
 Mats == {<<1, 0, 0, 1, 12, -12>>, <<-1, 0, 0, 1, 0, 24>>, <<0, 1, -1, 0, 0, 0>>}
 
-(* flat coordinate tuples of n lattice points, computed once *)
-RECURSIVE FlatSeqs(_)
-FlatSeqs(n) == IF n = 0 THEN {<<>>} ELSE {s \o p : s \in FlatSeqs(n - 1), p \in L}
-FlatN == [n \in 1..(MaxOff + 1) |-> FlatSeqs(n)]
-
 Add(c, k) == /\ Len(calls) < MaxCalls /\ np + k <= MaxPts
              /\ calls' = Append(calls, c) /\ np' = np + k
 LastOp == IF calls = <<>> THEN 0 ELSE calls[Len(calls)][1]
+Extend(p) == /\ np < MaxPts /\ np' = np + 1
+             /\ calls' = [calls EXCEPT ![Len(calls)] = calls[Len(calls)] \o p]
 
-(* ---- segment pen ---- *)
+(* ---- segment pen ----
+   A curveTo / qCurveTo call is built one point at a time (state "build": the last call is
+   still growing), so that every step of the machine has about |L| successors and random
+   walks (simulation) are not dominated by the many-point calls.                          *)
 SMove == st = "idle" /\ \E p \in L : Add(<<MOVE>> \o p, 1) /\ st' = "in"
 SLine == st = "in" /\ \E p \in L : Add(<<LINE>> \o p, 1) /\ st' = "in"
-SCurve == st = "in" /\ \E n \in 1..(MaxOff + 1) : \E q \in FlatN[n] : Add(<<CURVE>> \o q, n) /\ st' = "in"
-SQCurve == st = "in" /\ \E n \in 1..(MaxOff + 1) : \E q \in FlatN[n] : Add(<<QCURVE>> \o q, n) /\ st' = "in"
+SCurveStart == st = "in" /\ \E o \in {CURVE, QCURVE} : \E p \in L : Add(<<o>> \o p, 1) /\ st' = "build"
+SCurveMore == st \in {"build", "blob"} /\ NPts(calls[Len(calls)]) <= MaxOff /\ \E p \in L : Extend(p) /\ st' = st
+SCurveDone == st = "build" /\ st' = "in" /\ UNCHANGED <<calls, np>>
 SClose == st = "in" /\ Add(<<CLOSE>>, 0) /\ st' = "idle"
 SEnd == st = "in" /\ Add(<<END>>, 0) /\ st' = "idle"
-SBlob == st = "idle" /\ Len(calls) + 1 < MaxCalls /\ \E n \in 1..(MaxOff + 1) : \E q \in FlatN[n] :
-           /\ np + n <= MaxPts /\ np' = np + n /\ st' = "idle"
-           /\ calls' = calls \o << <<QBLOB>> \o q, <<CLOSE>> >>
+SBlobStart == st = "idle" /\ Len(calls) + 1 < MaxCalls /\ \E p \in L : Add(<<QBLOB>> \o p, 1) /\ st' = "blob"
+SBlobDone == st = "blob" /\ Add(<<CLOSE>>, 0) /\ st' = "idle"
 SComp == st = "idle" /\ \E m \in Mats : Add(<<COMP, 1>> \o m, 1) /\ st' = "idle"
-SegNext == proto = "seg" /\ (SMove \/ SLine \/ SCurve \/ SQCurve \/ SClose \/ SEnd \/ SBlob \/ SComp)
+SegNext == proto = "seg" /\ (SMove \/ SLine \/ SCurveStart \/ SCurveMore \/ SCurveDone \/ SClose \/ SEnd
+                             \/ SBlobStart \/ SBlobDone \/ SComp)
 
 (* ---- point pen ---- *)
 PBegin == st = "idle" /\ Add(<<PBEGIN>>, 0) /\ st' = "in"
